@@ -44,6 +44,9 @@ CHECKS = {
     "C08": ("exploration", "runtime monitoring: own fvar default-normalization + avar evaluator vs an independent piecewise-linear model of the source axis maps, at nodes and off-node coordinates",
             "Hostile axis definitions (2-9 nodes, default anywhere, non-integer nodes, slopes 0.05-20, flat segments, identity-with-bends) are compiled in tiny fonts; fvar bounds, required avar entries, monotonicity, instance ranges and avar(defaultNormalize(u)) == normalize(design(u)) within the F2Dot14 bound are checked at ~40 coordinates per axis.",
             "A flat first/last segment (user min/max mapping onto the design default) is excluded on that side: finding F9.", "DESIGN.md §5 C08"),
+    "C17": ("exploration", "runtime monitoring: every summary field recomputed from the emitted glyf/hmtx/vmtx/cmap tables and compared with head/hhea/vhea/maxp/OS-2",
+            "For each font of a broad workload the head bbox, every glyph box (composites resolved through their transforms), hhea/vhea maxima, minima, extents and long-metric counts, maxp maxima, loca format, OS/2 average width, first/last character index and a committed table of unambiguous Unicode-range bits (+ bit 57) are recomputed from the tables alone and must be equal.",
+            "Glyph boxes are required to cover all on-curve points and stay inside the control polygon (the spec allows either); usMaxContext and code-page bits are not recomputed; sources that set their Unicode ranges explicitly are exempt from the range bits.", "DESIGN.md §5 C17"),
 }
 
 NOT_YET = {}
